@@ -116,6 +116,12 @@ def gen(rng, tier):
         d = gen_device(rng, "led")
         d["close_us"] = off
         scenarios.append({"devices": [d], "tag": "corpus-D17"})
+    # corpus: the OpenRGB server dies while the device is connected (1.8 s = far more than a hundred failed refreshes); events arrive afterwards
+    for ms in ((1800,) if tier == "quick" else (300, 1200, 1800, 2600, 5200)):
+        d = gen_device(rng, "led")
+        d["server_dies_ms"] = ms
+        d["midi_stream"] = True
+        scenarios.append({"devices": [d], "tag": "corpus-server-dies"})
     # corpus: the stale-release path - a note key held across a switch to a mapping in which that key is not a note, released there
     # (its Note Off is found through the note tracker, outside the normal note/action dispatch), with the LED loop running
     for _ in range(3 if tier == "quick" else 40):
